@@ -85,8 +85,11 @@ def _scenario_worker(arg):
     # the repository prints progress (also from pool workers): keep the check's stdout for verdict lines only
     sys.stdout.flush()
     saved_fd = os.dup(1)
+    saved_fd2 = os.dup(2)
     devnull = os.open(os.devnull, os.O_WRONLY)
     os.dup2(devnull, 1)
+    if not os.environ.get("VERIF_RT_STDERR"):
+        os.dup2(devnull, 2)
     try:
         res = mod.run_scenario(params, wd)
         if isinstance(res, dict):
@@ -106,7 +109,9 @@ def _scenario_worker(arg):
         except Exception:
             pass
         os.dup2(saved_fd, 1)
+        os.dup2(saved_fd2, 2)
         os.close(saved_fd)
+        os.close(saved_fd2)
         os.close(devnull)
         shutil.rmtree(wd, ignore_errors=True)
 
